@@ -181,6 +181,10 @@ class Gen:
             parts.append("{" + r.choice(["", " "]) + inner + eq + conv + spec + "}")
         if r.random() < 0.5:
             parts.append(r.choice(["", "z", " #", ")", "("]))
+        if len(q) == 1 and r.random() < 0.35:
+            # the other quote character, single / doubled / tripled, inside the literal text
+            oq = '"' if q == "'" else "'"
+            parts.insert(r.choice([0, len(parts), len(parts)]), r.choice([oq, oq * 2, oq * 3, oq * 3 + "a" + oq * 3]))
         body = "".join(parts)
         if len(q) == 1:
             body = body.replace("\n", " ")
@@ -526,7 +530,7 @@ class Gen:
         J = lambda *t: self.join(list(t), False)   # noqa: E731
         E = lambda p=1: self.expr(p, d, False, fn)   # noqa: E731
         kinds = ["assign"] * 5 + ["expr"] * 4 + ["aug"] * 2 + ["pass", "del", "assert", "import", "from", "global", "ann",
-                                                                "raise"]
+                                                                "raise", "strstmt", "strassign"]
         if fn:
             kinds += ["return"] * 2 + ["yield_stmt"]
         if loop:
@@ -543,6 +547,10 @@ class Gen:
             return J(*toks)
         if k == "expr":
             return self.expr(1, d, False, fn)
+        if k == "strstmt":          # a bare (docstring-like) string statement
+            return self.string(False)
+        if k == "strassign":        # a statement that ends with a string literal
+            return J(self.name(), "=", self.string(False))
         if k == "aug":
             return J(self.name(), r.choice(AUGOPS) + "=", self.exprlist(d, False, fn) if r.random() < 0.1 else E())
         if k == "ann":
@@ -640,6 +648,10 @@ class Gen:
         ind2 = ind + r.choice([" ", "  ", "    ", "    ", "\t"])
         out = self.eol()
         n = r.randint(1, 3)
+        if r.random() < 0.12:
+            # string-ending statement directly followed by a string-starting one, inside the block
+            out += ind2 + self.join([self.name(), "=", self.one_string()], False) + self.eol()
+            out += ind2 + self.one_string() + self.eol()
         for _ in range(n):
             out += self.filler(ind2)
             out += self.stmt(ind2, d + 1, fn, loop)
